@@ -101,7 +101,9 @@ class C18(Property):
             "rest.Server with 6 route groups sharing one configuration (prefixes, path variables, public siblings, server.Use); "
             "srv: a real rest.Server with 2-5 route groups each with its OWN JWT secrets / signature keys (fingerprint -> key "
             "file, possibly the same fingerprint for different files) / strictness / tolerance, sometimes a configuration that "
-            "must not start, and 3-8 requests each aimed at one group with credentials made for any group; hdr: one header "
+            "must not start, and 3-8 requests each aimed at one group with credentials made for any group; big: cryption round "
+            "trip for payload sizes 0..1 MiB (seed, length) in both directions, response written in pieces, judged by an "
+            "independent stdlib client; hdr: one header "
             "string through httpx.ParseHeader. non-trivial = jwt/tp case with both an accepted and a rejected token that parses, "
             "cs case whose secret decrypts, crypt case whose body is valid base64, srv case with >= 2 protected groups and both "
             "an accepted and a rejected request; distinct = canonical JSON hash of the case")
@@ -176,6 +178,12 @@ class C18(Property):
             cs(enc=True, chunked=True),
             # window edges
             cs(tol=5, toff=5), cs(tol=5, toff=-5), cs(tol=5, toff=6), cs(tol=5, toff=-6),
+            # payload sizes across the 32 KiB / 64 KiB / base64-group boundaries, both directions, one Write and pieces
+            self._big(1, 5, 32768), self._big(2, 5, 40000), self._big(3, 5, 70000), self._big(4, 5, 200000, piece=7777),
+            self._big(5, 5, 98304), self._big(6, 5, 32767), self._big(7, 5, 65537, piece=4096, flush=True),
+            self._big(8, 32768, 5), self._big(9, 65537, 49, via="cs"), self._big(10, 70000, 70000, via="cs", chunked=True),
+            self._big(11, 1 << 20, 16, limit=8 << 20), self._big(12, 16, 1 << 20, piece=32768), self._big(13, 1 << 20, 0, limit=1 << 20),
+            self._big(14, 0, 0), self._big(15, 100000, 100000, piece=1, keylen=32),
             # the timestamp over its integer domain, correctly signed: ms instead of s, 2^31, 2^32, 2^40, 2^53, 2^62, the
             # int64 extremes, ~292 years ahead (where a Duration in ns saturates), 0, negative
             cs(tsfmt="ms"), cs(tsraw="20000000000"), cs(tsraw=str(2 ** 31)), cs(tsraw=str(2 ** 32 + 1)), cs(tsraw=str(2 ** 40)),
@@ -421,6 +429,39 @@ class C18(Property):
             src["cls"] = "replay"
             reqs.insert(rng.randrange(len(reqs) + 1), src)
         return {"kind": "jwt", "secret": secret, "prev": prev, "cb": rng.choice([0, 0, 1, 1, 2]), "reqs": reqs}
+
+    BIG_SIZES = [0, 1, 2, 3, 4, 15, 16, 17, 31, 32, 33, 47, 48, 49, 95, 96, 97, 4095, 4096, 4097, 12287, 12288, 12289,
+                 32767, 32768, 32769, 40000, 49151, 49152, 49153, 65535, 65536, 65537, 70000, 98303, 98304, 98305, 102400,
+                 131072, 200000]
+
+    def _big(self, seed, reqlen, resplen, piece=0, flush=False, keylen=16, via="crypt", chunked=False, limit=-1):
+        return {"kind": "big", "big": {"seed": seed, "reqlen": reqlen, "resplen": resplen, "piece": piece, "flush": flush,
+                                       "keylen": keylen, "via": via, "chunked": chunked, "limit": limit}}
+
+    def _big_case(self, rng):
+        """payload SIZES for the cryption round trip, both directions, across AES-block, base64-group and buffer
+        boundaries; payloads are (seed, length), expanded by the executor; judged by an independent client"""
+        def size():
+            x = rng.random()
+            if x < 0.75:
+                return rng.choice(self.BIG_SIZES)
+            if x < 0.93:
+                k = rng.randint(1, 9000)
+                return rng.choice([3 * k - 1, 3 * k, 3 * k + 1, 16 * k - 1, 16 * k, 16 * k + 1, 48 * k, 32768 * rng.randint(1, 6) + rng.choice([-1, 0, 1])])
+            return rng.choice([1 << 20, (1 << 20) - 1, (1 << 20) + 1, 786432, 1000000])
+        reqlen, resplen = size(), size()
+        if rng.random() < 0.5:
+            # one direction large at a time keeps the case cheap
+            if rng.random() < 0.5:
+                reqlen = rng.choice(self.BIG_SIZES[:20])
+            else:
+                resplen = rng.choice(self.BIG_SIZES[:20])
+        piece = rng.choice([0, 0, 0, 1, 7, 16, 4096, 7777, 32768, 32769, 100000])
+        if piece == 1 and resplen > 70000:
+            piece = 7
+        limit = rng.choice([-1, -1, 0, 1 << 20, 1 << 20, 8 << 20, 50000])
+        return self._big(rng.randrange(1 << 32), reqlen, resplen, piece, rng.random() < 0.3, rng.choice([16, 24, 32]),
+                         rng.choice(["crypt", "crypt", "cs"]), rng.random() < 0.2, limit)
 
     TP_SECRETS = ["s-alpha-000001", "s-beta-0000002", "s-gamma-000003"]
 
@@ -763,7 +804,9 @@ class C18(Property):
         cases = []
         for _ in range(n):
             r = rng.random()
-            if r < 0.22:
+            if r < 0.03:
+                cases.append(self._big_case(rng))
+            elif r < 0.22:
                 cases.append(self._jwt_case(rng))
             elif r < 0.30:
                 cases.append(self._tp_case(rng))
@@ -792,7 +835,8 @@ class C18(Property):
                 raise ExecError("c18 executor: engine did not bind the routes: %s" % r["cs"]["engerr"])
             if r.get("srv") and r["srv"].get("engerr") and not self._srv_expect_fail(cases[len(obs)]):
                 raise ExecError("c18 executor: server did not bind the routes: %s" % r["srv"]["engerr"])
-            obs.append({"jwt": r.get("jwt"), "cs": r.get("cs"), "hdr": r.get("hdr"), "tp": r.get("tp"), "srv": r.get("srv")})
+            obs.append({"jwt": r.get("jwt"), "cs": r.get("cs"), "hdr": r.get("hdr"), "tp": r.get("tp"), "srv": r.get("srv"),
+                        "big": r.get("big")})
         return obs
 
     # ------------------------------------------------------------------ rendering
@@ -880,6 +924,12 @@ class C18(Property):
             return "CHdr %s %s" % (hexbytes(h["raw"]), pairs)
         if case["kind"] == "tp":
             return self._tp_term(case, obs["tp"])
+        if case["kind"] == "big":
+            g, o = case["big"], obs["big"]
+            return "CBig (mkBig %s %s %s %s %s %s %s %s %s %s %s)" % (
+                cbool(g["via"] == "cs"), cbool(g["chunked"]), cz(g["limit"]), cz(g["reqlen"]), cz(g["resplen"]),
+                cz(o["wirelen"]), cbool(o["ran"]), cz(o["status"]), cbool(o["seenok"]), cbool(o["respok"]),
+                cbool(bool(o.get("panic"))))
         if case["kind"] == "srv":
             if any(r.get("unstable") for r in obs["srv"]["reqs"]):
                 return "CHdr [] []"          # the wall-clock second changed under a request: nothing is compared
@@ -1202,7 +1252,7 @@ class C18(Property):
                IS correctly signed (fingerprint, secret, window, MAC) for the header's path/query;
         (cryption-skips-unknown-length-body is FIXED in /repo, f372be8: nothing is suppressed for it any more;
         a tree without the repair gives VIOLATION.)"""
-        if case["kind"] in ("jwt", "hdr", "tp", "srv"):
+        if case["kind"] in ("jwt", "hdr", "tp", "srv", "big"):
             return None
         o = obs["cs"]
         v, q = o["view"], case["req"]
@@ -1219,7 +1269,7 @@ class C18(Property):
         honest = bool(q.get("enc")) and not q.get("cipherop") and q.get("bodyraw") is None and not q.get("clenadd")
         lim = case.get("limit") or MAXBYTES
         xsame = v["xpath"] is None or (v["xpath"], v["xquery"]) == (v["path"], v["query"])
-        must = honest and v["aesok"] and jwt_ok and v["contentlen"] <= lim and xsame and (crypt or (signed and v["ctype"] == 1 and q["method"] in CHECKED))
+        must = honest and v["aesok"] and jwt_ok and (lim <= 0 or (v["contentlen"] if v["contentlen"] >= 0 else len(v["wire"]) // 2) <= lim) and xsame and (crypt or (signed and v["ctype"] == 1 and q["method"] in CHECKED))
         plain_hex = bytes(ord(ch) & 255 for ch in q["body"]).hex()
         resp_hex = bytes(ord(ch) & 255 for ch in q["resp"]).hex()
         dec_fail = must and not (o["ran"] and o["seen"] == plain_hex and
@@ -1245,6 +1295,8 @@ class C18(Property):
             return any(o["ran"] for o in toks) and any(not o["ran"] for o in toks)
         if case["kind"] == "hdr":
             return len(obs["hdr"][0]["attrs"]) > 0
+        if case["kind"] == "big":
+            return obs["big"]["ran"] and (case["big"]["reqlen"] >= 16 or case["big"]["resplen"] >= 16)
         if case["kind"] == "tp":
             return any(o["code"] == 0 for o in obs["tp"]) and any(o["code"] > 0 for o in obs["tp"])
         if case["kind"] == "srv":
@@ -1266,6 +1318,14 @@ class C18(Property):
                 fs.append("jwt:%s:%s" % (q.get("cls", "corpus"), "ran" if o["ran"] else str(o["status"])))
         elif case["kind"] == "hdr":
             fs.append("hdr:attrs=%d" % len(obs["hdr"][0]["attrs"]))
+        elif case["kind"] == "big":
+            g, o = case["big"], obs["big"]
+
+            def bucket(n):
+                return "0" if n == 0 else "<16" if n < 16 else "<4K" if n < 4096 else "<32K" if n < 32768 else "<64K" if n < 65536 \
+                    else "<1M" if n < (1 << 20) else ">=1M"
+            fs.append("big:req%s:resp%s:%s" % (bucket(g["reqlen"]), bucket(g["resplen"]), "ran" if o["ran"] else str(o["status"])))
+            fs.append("big:piece=%d%s:%s%s" % (g["piece"], ":flush" if g["flush"] else "", g["via"], ":chunked" if g["chunked"] else ""))
         elif case["kind"] == "tp":
             fs.append("tp:reset" if case.get("reset") else "tp:noreset")
             for cl, o in zip(case["calls"], obs["tp"]):
@@ -1320,6 +1380,16 @@ class C18(Property):
                     c = dict(case)
                     c["reqs"] = rs[:i] + rs[i + 1:]
                     res.append(c)
+            return res
+        if case["kind"] == "big":
+            g = case["big"]
+            for k, vals in (("resplen", [0, 5, 32768, g["resplen"] // 2]), ("reqlen", [0, 5, g["reqlen"] // 2]),
+                            ("piece", [0]), ("flush", [False]), ("chunked", [False]), ("via", ["crypt"]), ("limit", [-1])):
+                for v in vals:
+                    if g[k] != v:
+                        c = json.loads(json.dumps(case))
+                        c["big"][k] = v
+                        res.append(c)
             return res
         if case["kind"] == "tp":
             rs = case["calls"]
@@ -1377,6 +1447,11 @@ class C18(Property):
             return ("on a rest.Server with several route groups, a route's handler (or a server.Use middleware) ran for a "
                     "request whose credentials are not valid for the configuration of the group the route was registered in "
                     "(JWT secret / previous secret, signature keys, strictness, tolerance), or another route's handler ran")
+        if case["kind"] == "big":
+            return ("cryption round trip by payload size: an honestly encrypted request body (seed, reqlen) did not reach the "
+                    "handler as the plaintext, or the response (seed, resplen; written in pieces of `piece` bytes) does not "
+                    "decode as ONE base64 document and decrypt (AES-ECB, strict PKCS#7, independent client) to what the "
+                    "handler wrote: " + str(obs["big"].get("respwhy", "")))
         if case["kind"] == "tp":
             return "token.TokenParser.ParseToken returned a token that is not valid under the secrets of that call"
         if case["kind"] == "jwt":
